@@ -40,7 +40,7 @@ Definition no_auction_result (i : p1_in) : Prop :=
 
 Lemma propose_reaches_unfold : forall g i p, reaches i p ->
   propose g i =
-  let gr := graffiti_of (p1_graffiti i) in
+  let gr := graffiti_of (p1_graffiti i) (p1_node_client i) in
   let tr signed unb sub := {| t_graffiti := gr; t_signed := signed; t_unblind := unb; t_submitted := sub |} in
   if pr_blinded p then
     match (match p1_auction i with ARes a => Some a | _ => None end) with
@@ -64,7 +64,7 @@ Qed.
 
 Lemma propose_blinded_without_auction : forall i p,
   reaches i p -> pr_blinded p = true -> no_auction_result i ->
-  propose_now i = ({| t_graffiti := graffiti_of (p1_graffiti i); t_signed := true; t_unblind := []; t_submitted := false |},
+  propose_now i = ({| t_graffiti := graffiti_of (p1_graffiti i) (p1_node_client i); t_signed := true; t_unblind := []; t_submitted := false |},
                    Err ENoAuction).
 Proof.
   intros i p Hr Hb Hn. unfold propose_now. rewrite (propose_reaches_unfold true i p Hr). cbn zeta. rewrite Hb.
@@ -95,14 +95,14 @@ Proof.
 Qed.
 
 Definition with_auction (i : p1_in) (a : auction_in) : p1_in :=
-  {| p1_graffiti := p1_graffiti i; p1_auction := a; p1_proposal := p1_proposal i; p1_sign_ok := p1_sign_ok i;
+  {| p1_graffiti := p1_graffiti i; p1_node_client := p1_node_client i; p1_auction := a; p1_proposal := p1_proposal i; p1_sign_ok := p1_sign_ok i;
      p1_unblind_all := p1_unblind_all i; p1_unblind_ok := p1_unblind_ok i; p1_submit_ok := p1_submit_ok i |}.
 
 Lemma propose_local_ignores_auction : forall i a,
   (forall p, p1_proposal i = Some p -> pr_blinded p = false) ->
   propose_now (with_auction i a) = propose_now i.
 Proof.
-  intros i a H. unfold propose_now, propose, with_auction; cbn [p1_graffiti p1_auction p1_proposal p1_sign_ok p1_unblind_all p1_unblind_ok p1_submit_ok].
+  intros i a H. unfold propose_now, propose, with_auction; cbn [p1_graffiti p1_node_client p1_auction p1_proposal p1_sign_ok p1_unblind_all p1_unblind_ok p1_submit_ok].
   destruct (p1_proposal i) as [p|]; [|reflexivity].
   rewrite (H p eq_refl). unfold lib_nil_deneb. destruct ((pr_version p =? 5) && negb false && negb (pr_present p)); reflexivity.
 Qed.
@@ -168,11 +168,11 @@ Proof.
   intro l. unfold pad32. rewrite firstn_length, app_length, repeat_length. lia.
 Qed.
 
-Lemma graffiti_of_length : forall g, length (graffiti_of g) = 32%nat.
-Proof. destruct g; cbn [graffiti_of]; try apply repeat_length. apply pad32_length. Qed.
+Lemma graffiti_of_length : forall g nc, length (graffiti_of g nc) = 32%nat.
+Proof. destruct g; intro nc; cbn [graffiti_of]; try apply repeat_length. apply pad32_length. Qed.
 
 Lemma propose_graffiti : forall i,
-  t_graffiti (fst (propose_now i)) = graffiti_of (p1_graffiti i).
+  t_graffiti (fst (propose_now i)) = graffiti_of (p1_graffiti i) (p1_node_client i).
 Proof.
   intro i. unfold propose_now, propose.
   destruct (p1_proposal i) as [p|]; [|reflexivity].
